@@ -91,9 +91,8 @@ class FreshnessDateDataParser:
         date, period = self._parse_date(date_string, now, settings.PREFER_DATES_FROM)
 
         if date:
-            old_date = date
             date = apply_time(date, _time)
-            if settings.RETURN_TIME_AS_PERIOD and old_date != date:
+            if settings.RETURN_TIME_AS_PERIOD and isinstance(_time, time):
                 period = "time"
 
             if settings.TO_TIMEZONE:
